@@ -113,12 +113,23 @@ def behavioural_weighted(ctx, sub, quick):
                   'ew': {'w': gen.det_weights(len(edges), shift)}, 'nw': {'rw': gen.det_weights(n, shift + 2)}}
             cases.append({'gc': gc, 'tau': 1.0, 'gamma': 0.7, 'ew': 'w', 'nw': 'rw', 'I0': ['n%d' % (shift % n)], 'R0': [],
                           'tmin': 0, 'tmax': 2.0})
+        # zero weights: a node that never recovers (it may end up as the only infected node) and an edge that never transmits
+        for z in range(n if not quick else 2):
+            nw = gen.det_weights(n, 1)
+            nw[(z + 1) % n] = 0.0
+            ew = gen.det_weights(len(edges), 3)
+            ew[z % len(edges)] = 0.0
+            gc = {'nodes': ['n%d' % i for i in range(n)], 'edges': [['n%d' % a, 'n%d' % b] for a, b in edges],
+                  'ew': {'w': ew}, 'nw': {'': nw}}
+            cases.append({'gc': gc, 'tau': 1.0, 'gamma': 0.7, 'ew': 'w', 'nw': '', 'I0': ['n%d' % z], 'R0': [], 'tmin': 0, 'tmax': 2.0})
     c01.run_exhaustive(ctx, sub, cases, 'eonverif.props.c02', 'tree_prop_weighted')
 
 
 def replay(ctx, sub, case):
     if sub.startswith('mc'):
         return mc.replay_mc(ctx, case, 64000)
+    if sub == 'tree-weighted':
+        return tree_prop_weighted(case).failures
     if 'walk' in case:
         return prop_walk(case).failures
     return prop_tree(case).failures
@@ -142,6 +153,8 @@ def run(ctx):
             c['tmax'] = 2.0 if quick else 3.0
             cases.append(c)
         c01.run_exhaustive(ctx, 'tree', cases, 'eonverif.props.c02', 'tree_prop')
+    if not only or 'tree-weighted' in only:
+        behavioural_weighted(ctx, 'tree-weighted', quick)        # many distinct weights, zero-weight nodes and edges
     if not only or 'walk' in only:
         run_hypothesis(ctx, 'walk', c01.walk_case(sis=True), prop_walk, 600 if quick else 5000,
                        min_class_fraction={'reinfection': 0.05})
